@@ -202,12 +202,18 @@ def explore(run, max_paths=4000):
             ctx.ended = "ok"
         except PathEnd:
             ctx.ended = "cut"
-        except BaseException:
+        except BaseException as e_:
             # the unit leaves the subset (or the harness fails) on this path: what was REFUTED before that - on this path and on the paths
             # already finished - stays refuted; report.py reports it next to the verdict of the bounded stand-in
             from . import loader as _ld
             if not _ld.MUTATED:
                 PARTIAL_REFUTED.extend(r for c in done + [ctx] for r in getattr(c, "results", []) if getattr(r, "verdict", None) == "refuted")
+            if isinstance(e_, Exception) and not type(e_).__module__.startswith("rxvc"):
+                # an assumption of the HARNESS about the shape of the code broke (IndexError, KeyError, AttributeError, a z3 sort error ...): the
+                # harness cannot follow this code - that is drift (the bounded stand-in decides), not a verdict and not a crash of the check
+                import traceback as _tb
+                where = _tb.extract_tb(e_.__traceback__)[-1]
+                raise Unsupported(f"the harness cannot follow this code ({type(e_).__name__}: {str(e_)[:120]} at {where.filename.split('/')[-1]}:{where.lineno})") from e_
             raise
         work.extend(ctx.alternatives)
         done.append(ctx)
